@@ -49,6 +49,51 @@ func l1Corpus(c *Ctx, family string, sampleEvery int) []reqCase {
 			out = append(out, reqCase{ID: "feat-nosvc/" + f.ID, Files: []*spec.File{fn.File}})
 		}
 	}
+	// feature twins: two proto packages (two Go packages) generated in one invocation that declare the
+	// SAME message names with a DIFFERENT member of the same annotation group (UNIX_SECONDS vs DATE,
+	// HEX vs BASE64URL, NULL vs OMIT, another prefix, another discriminator layout ...): what a generator
+	// remembers about a message must be keyed by the message, not by its name
+	{
+		group := func(f corpus.Feature) string { return strings.SplitN(f.Ann, "_", 2)[0] }
+		byGroup := map[string][]int{}
+		var order []string
+		for i, f := range feats {
+			g := group(f)
+			if g == "none" {
+				continue
+			}
+			if _, ok := byGroup[g]; !ok {
+				order = append(order, g)
+			}
+			byGroup[g] = append(byGroup[g], i)
+		}
+		for _, g := range order {
+			idx := byGroup[g]
+			for k, i := range idx {
+				// partner: the next feature of the group with another annotation value (ring order)
+				j := -1
+				for d := 1; d < len(idx); d++ {
+					if cand := idx[(k+d)%len(idx)]; feats[cand].Ann != feats[i].Ann || g == "nullable" || g == "int64" || g == "unwrap" || g == "flatten" {
+						j = cand
+						break
+					}
+				}
+				if j < 0 {
+					continue
+				}
+				if sampleEvery > 1 && k != int(c.Seed)%len(idx) {
+					continue // sampled runs: one twin pair per annotation group, seed-rotated
+				}
+				names := func() *corpus.Names { return corpus.NewNames(c.Rng("names:twin:" + feats[i].ID)) }
+				a := corpus.BuildFeaturePkg(feats[i], i, family+"twa", "s", names(), true, []string{"top", "child"})
+				b := corpus.BuildFeaturePkg(feats[j], i, family+"twb", "s", names(), true, []string{"top", "child"})
+				for _, sv := range b.File.Services {
+					sv.Name = "Twin" + sv.Name // documents are named after the bare service name (a recorded C18 finding): keep them apart
+				}
+				out = append(out, reqCase{ID: "feat-twins/" + feats[i].ID + "~" + feats[j].Ann, Files: []*spec.File{a.File, b.File}})
+			}
+		}
+	}
 	lit := 0
 	for bi := range corpus.BaseVariants {
 		if sampleEvery > 1 && bi != 0 && bi != 1+int(c.Seed)%4 {
@@ -65,6 +110,7 @@ func l1Corpus(c *Ctx, family string, sampleEvery int) []reqCase {
 	out = append(out, reqCase{ID: "requests/shared", Files: []*spec.File{corpus.SharedRequestFile(family+".sr", family+"sr")}})
 	t, s, u := corpus.MultiFilePackage(family+".multi", family+"multi")
 	out = append(out, reqCase{ID: "multifile/package", Files: []*spec.File{t, s}, Extra: u})
+	out = append(out, reqCase{ID: "multifile/same-package-siblings", Files: corpus.SiblingFiles(family+".sib", family+"sib")})
 	{
 		lit := 0
 		v2, _ := corpus.RoutingFile(1, "main", family+".ver", "lab/gen/"+family+"ver", family+"ver", &lit, false)
@@ -186,12 +232,33 @@ func c15(c *Ctx) {
 		for _, f := range rc.Files {
 			protos = append(protos, f.Proto())
 		}
+		type pv struct{ p, param string }
+		var pvs []pv
 		for _, p := range plugin.Sebuf {
+			pvs = append(pvs, pv{p, ""})
+		}
+		if c.Thorough() || len(rc.Files) > 1 {
+			// rarely used plugin parameters switch on generators of their own (mock server, JSON rendering):
+			// the same variations apply to what they emit
+			pvs = append(pvs, pv{"go-http", "generate_mock=true"}, pv{"openapiv3", "format=json"})
+		}
+		for _, v := range pvs {
+			p, param := v.p, v.param
 			caseBase := "determinism/" + rc.ID + "/" + p
+			if param != "" {
+				caseBase += "[" + param + "]"
+				r0, err := spec.Request(rc.Files, rc.Gen, param)
+				if err != nil {
+					continue
+				}
+				req = r0
+			} else if r0, err := spec.Request(rc.Files, rc.Gen, ""); err == nil {
+				req = r0
+			}
 			if !c.Want(caseBase+"/repeat") && c.Only != "" && !strings.HasPrefix(c.Only, caseBase) {
 				continue
 			}
-			base := c.TB.Run(p, req, plugin.RunOpt{Env: []string{"GOMAXPROCS=16"}})
+			base := c.TB.Run(p, req, plugin.RunOpt{Env: []string{"GOMAXPROCS=16"}, MemKB: 2 * 1024 * 1024})
 			c.R.Eval(1)
 			if !base.OK() {
 				// acceptance/termination are C12/C16 matters; nothing to compare here
@@ -243,12 +310,12 @@ func c15(c *Ctx) {
 				for _, f := range rc.Files {
 					gen = append(gen, f.Path)
 				}
-				if req2, err := spec.Request(files, gen, ""); err == nil {
+				if req2, err := spec.Request(files, gen, param); err == nil {
 					cmp(caseBase+"/extra-proto-file", c.TB.Run(p, req2, plugin.RunOpt{}), base.Names(), "extra unrelated proto_file")
 				}
 				// (b) unrelated file also generated, listed first
 				files2 := append([]*spec.File{extra}, rc.Files...)
-				if req3, err := spec.Request(files2, nil, ""); err == nil {
+				if req3, err := spec.Request(files2, nil, param); err == nil {
 					cmp(caseBase+"/extra-generated", c.TB.Run(p, req3, plugin.RunOpt{}), base.Names(), "extra unrelated generated file")
 				}
 			}
@@ -258,12 +325,12 @@ func c15(c *Ctx) {
 				for i := len(rc.Files) - 1; i >= 0; i-- {
 					gen = append(gen, rc.Files[i].Path)
 				}
-				if req4, err := spec.Request(rc.Files, gen, ""); err == nil {
+				if req4, err := spec.Request(rc.Files, gen, param); err == nil {
 					cmp(caseBase+"/permuted", c.TB.Run(p, req4, plugin.RunOpt{}), base.Names(), "permuted file_to_generate")
 				}
 				// each file generated alone (others only in proto_file)
 				for _, f := range rc.Files {
-					if req5, err := spec.Request(rc.Files, []string{f.Path}, ""); err == nil {
+					if req5, err := spec.Request(rc.Files, []string{f.Path}, param); err == nil {
 						alone := c.TB.Run(p, req5, plugin.RunOpt{})
 						if alone.OK() {
 							// every file the multi-file run emitted for f must also come out of the run for f alone
@@ -279,7 +346,7 @@ func c15(c *Ctx) {
 				}
 			}
 			// equivalent parameter spellings
-			switch p {
+			switch p + param {
 			case "openapiv3":
 				ry := proto.Clone(req).(*pluginpb.CodeGeneratorRequest)
 				ry.Parameter = proto.String("format=yaml")
